@@ -1,2 +1,32 @@
-(** C04 — the reader decodes every conformant file of the supported subset (placeholder; see PQ.ForeignProofs) *)
-From Coq Require Import List NArith.
+(** C04 — the reader decodes every conformant file of the supported subset.
+    Statements only.  The core facts, each for ALL inputs: the library's level
+    decoder accepts every well-formed hybrid stream, whatever mix of run kinds,
+    run lengths and group counts (PQ.RleDecProofs); PLAIN values decode from the
+    concatenation of page sections (PQ.PlainProofs); optional thrift fields are
+    carried by the decoder (PQ.MetaProofs).  The file-level statement over the
+    choice-driven foreign writer [Foreign.foreign_file] (any run segmentation,
+    page splits, codecs, optional metadata) is PQ.ForeignProofs.foreign_read_ok
+    and is added here when it lands. *)
+From Coq Require Import List NArith ZArith.
+From PQ Require Import Bytes Bitpack RleSpec Rle BitpackProofs RleSpecProofs RleDecProofs MetaTypes Thrift Meta MetaProofs.
+Import ListNotations.
+Local Open Scope N_scope.
+
+Theorem C04_any_run_segmentation_decodes : forall w rs rest,
+  In w [1; 2; 3; 4] -> Forall (wf_run w) rs ->
+  Forall (fun r => match r with RRle c _ => c < 2 ^ 63 | RBp _ => True end) rs ->
+  nlen (runs_encode w rs) < 2 ^ 31 ->
+  rle_read w (hybrid_encode w rs ++ rest) = Ok (runs_values rs, (4 + length (runs_encode w rs))%nat).
+Proof. exact rle_read_ok. Qed.
+Print Assumptions C04_any_run_segmentation_decodes.
+
+(** optional header fields (CRC, statistics in either form, ...) do not disturb decoding *)
+Theorem C04_any_page_header_decodes : forall ph rest,
+  page_header_ok ph = true -> dec_page_header (enc_page_header ph ++ rest) = Some (ph, rest).
+Proof. exact dec_enc_page_header. Qed.
+Print Assumptions C04_any_page_header_decodes.
+
+Theorem C04_any_footer_decodes : forall fm rest,
+  file_meta_ok fm = true -> dec_file_meta (enc_file_meta fm ++ rest) = Some (fm, rest).
+Proof. exact dec_enc_file_meta. Qed.
+Print Assumptions C04_any_footer_decodes.
